@@ -57,6 +57,7 @@ def member_obs(r):
         "calls": list(getattr(c, "_verif_calls", [])), "cwnm": bool(c.collect_when_not_matched), "will_run": bool(c.will_run),
         "scanner": None if c.scanner is None else {"these": list(c.scanner.these), "from": c.scanner.from_line, "to": c.scanner.to_line, "all": bool(c.scanner.all_lines)},
         "run_dir": r.run_dir, "instance_dir": getattr(r, "instance_dir", None), "started": c.run_started_at is not None,
+        "pln": (c.line_monitor.physical_line_number if c.line_monitor else None), "dlc": (c.line_monitor.data_line_count if c.line_monitor else None),
     }
 
 
